@@ -48,10 +48,18 @@ type HistGen struct {
 	OpsSpan  int            //
 	Epilogue func(*HistGen) // default: `recheck` of every slot, `dump 0`
 
+	// Base is the root path (segments below the filespace's own root) of every handle whose position is
+	// known to the generator: the InitIDs are at [], a `view` through a known handle with a spelling that
+	// resolves is at base ++ resolve(spelling) (it may still be unbound: a file in the way).  Read by the
+	// nested-view family (nest.go).
+	Base map[int][]string
+
 	used  [][]string // segment lists used so far in this history
 	files [][]string // … those written as files (a guess: the write may have failed)
 	dirs  [][]string // … those created as directories, and parents of written files
 	want  int        // what the next path should preferably be: WantAny/WantFile/WantDir/WantFresh
+
+	extraIDs int // ids handed out by NewID that were not appended to IDs (handles that must stay unbound)
 }
 
 // NewHistGen returns the C01 generator configuration.
@@ -317,9 +325,12 @@ func DefaultOps() []Weighted {
 			g.MaybeKeep()
 		}},
 		{5, func(g *HistGen) { // Filespace(path): a child view of any open handle
-			id := len(g.IDs)
-			g.Emit("view %d %d %s", id, g.PickFS(), HP(g.PathW(WantDir, WantAny)))
+			id := g.NewID()
+			parent := g.PickFS()
+			p := g.PathW(WantDir, WantAny)
+			g.Emit("view %d %d %s", id, parent, HP(p))
 			g.IDs = append(g.IDs, id) // if the call fails the id stays unbound: both sides answer `nofs`
+			g.NoteView(id, parent, p)
 			g.Count["op:view"]++
 		}},
 		{3, func(g *HistGen) { g.Emit("dump %d", g.PickFS()); g.Count["op:dump"]++ }},
@@ -340,9 +351,33 @@ func DefaultOps() []Weighted {
 	}
 }
 
+// NewID returns a filespace id that no line of this history has used yet.
+func (g *HistGen) NewID() int {
+	id := len(g.IDs) + g.extraIDs
+	return id
+}
+
+// NoteView records where the view `id` opened through `parent` with spelling p is rooted (when known).
+func (g *HistGen) NoteView(id, parent int, p string) {
+	if pb, ok := g.Base[parent]; ok {
+		if rel, good := Resolve(p); good {
+			g.Base[id] = append(append([]string{}, pb...), rel...)
+		}
+	}
+}
+
+// Tag emits the comment line `#@ <tag>`: both drivers skip it (no result line); `drive -stats` and the
+// oracle count the result kind of the NEXT op line under `<tag>:<kind>` (family-wise coverage counters).
+func (g *HistGen) Tag(tag string) { g.Emit("#@ %s", tag) }
+
 // History emits one history.
 func (g *HistGen) History() {
 	g.used, g.files, g.dirs, g.IDs, g.Slots = nil, nil, nil, append([]int{}, g.InitIDs...), 0
+	g.extraIDs = 0
+	g.Base = map[int][]string{}
+	for _, id := range g.InitIDs {
+		g.Base[id] = []string{}
+	}
 	g.Emit("reset")
 	for _, l := range g.Preamble {
 		g.Emit("%s", l)
@@ -372,6 +407,7 @@ func GenSeed(shard int) uint64 { return hx.SeedFromEnv()*1000003 + uint64(shard)
 // Gen is `fs gen <n> [<shard> <nshards>]`: this shard's share of n C01 histories.
 func Gen(w *bufio.Writer, stat *bufio.Writer, n int, shard, nshards int) {
 	g := NewHistGen(hx.NewRand(GenSeed(shard)), w)
+	g.Ops = append(g.Ops, NestedViewOps()...) // the nested-view family (nest.go)
 	for i := shard; i < n; i += nshards {
 		g.History()
 	}
